@@ -1,3 +1,39 @@
+//@ fn ModuleSet::add_from_uri
+//@ spec
+    ensures
+        // C40: after registering a URI, the lookup that Run::cleanup / cleanup_host performs with the
+        // on-disk names (directory of the canonical, lower-cased authority; module directory) succeeds
+        final(self).has(lower(uri.authority_spec()), uri.module_spec()),
+        // registrations are never withdrawn, and nothing else is added
+        forall|a: Seq<char>, m: Seq<char>| old(self).has(a, m) ==> final(self).has(a, m),
+        forall|a: Seq<char>, m: Seq<char>| final(self).has(a, m) ==>
+            old(self).has(a, m) || (a == lower(uri.authority_spec()) && m == uri.module_spec()),
+//@ closure 1
+|auth: &mut HashSet<String>| -> (r: bool) ensures final(auth).set() =~= old(auth).set().insert(uri.module_spec())
+//@ fn ModuleSet::with_authority
+//@ spec
+    requires
+        forall|s: &mut HashSet<String>| op.requires((s,)),
+    ensures
+        // `op` ran on the module set stored under the canonical authority of the URI (an empty one if
+        // there was none) and its result is what is stored there now; other authorities are untouched
+        exists|s: &mut HashSet<String>| #[trigger] op.ensures((s,), res)
+            && s.set() == (if old(self).authorities.map().contains_key(lower(uri.authority_spec()))
+                              { old(self).authorities.map()[lower(uri.authority_spec())].set() }
+                           else { Set::<Seq<char>>::empty() })
+            && final(self).authorities.map() == old(self).authorities.map().insert(lower(uri.authority_spec()), *final(s)),
+//@ fn Cleanup::add_rsync_module
+//@ spec
+    ensures
+        // C40: what the store registers for a kept point is found by the rsync cleanup under the on-disk names
+        final(self).rsync.has(lower(uri.authority_spec()), uri.module_spec()),
+        forall|a: Seq<char>, m: Seq<char>| old(self).rsync.has(a, m) ==> final(self).rsync.has(a, m),
+        final(self).rrdp == old(self).rrdp,
+//@ fn Cleanup::add_rrdp_repository
+//@ spec
+    ensures
+        final(self).rrdp.uris() == old(self).rrdp.uris().insert(*rpki_notify),
+        final(self).rsync == old(self).rsync,
 //@ fn Run::cleanup_host
 //@ spec
     requires
@@ -50,12 +86,6 @@ impl ModuleSet {
     spec fn has(&self, a: Seq<char>, m: Seq<char>) -> bool {
         self.authorities.map().contains_key(a) && self.authorities.map()[a].set().contains(m)
     }
-    // ModuleSet as a set (assumed; the real body uses a closure over &mut HashSet).
-    #[verifier::external_body]
-    fn add_from_uri(&mut self, uri: &UriRsync) -> (r: bool)
-        ensures forall|a: Seq<char>, m: Seq<char>| final(self).has(a, m) ==
-                    (old(self).has(a, m) || (a == uri.authority_spec() && m == uri.module_spec())),
-    { unimplemented!() }
 }
 
 // f is an entry of host directory `a`: it is the copy of module (a, name(f)).
